@@ -456,7 +456,7 @@ func nodeField(n Node, k string) (any, string, string) {
 	return nil, noField(k, nodeNames), ""
 }
 
-var nodeNames = []string{"Name", "Title", "title", "Count", "count", "Any", "any", "Kids", "Next", "next", "Arr", "Tags", "tags", "M", "Small", "small", "Bytes", "Leaf", "Deep", "Num", "PLeaf", "PDeep", "Short", "Long", "id", "ID"}
+var nodeNames = []string{"Name", "Title", "title", "Count", "count", "Any", "any", "Kids", "Next", "next", "Arr", "Tags", "tags", "M", "Small", "small", "Bytes", "Leaf", "Deep", "Num", "PLeaf", "PDeep", "Short", "Long", "id", "ID", "Token", "Dash"}
 var rootNames = []string{"Plain", "Tagged", "tagged", "List", "Sub", "sub", "Any", "any", "Short", "Long", "id", "ID"}
 
 // noField tells a name that merely differs in case from a field name or tag (Go selectors and
@@ -496,6 +496,13 @@ func rootField(r rootT, k string) (any, string, string) {
 		return r.Long, reach, ".name"
 	case "ID":
 		return r.Long, reach, ".tag"
+	case "Token":
+		return r.Token, reach, ".name"
+	case "Dash":
+		return r.Dash, reach, ".name"
+	case "-":
+		// the tag text of json:"-" / json:"-,": whether it names a field is not settled
+		return nil, unspec, ".dash-tag"
 	case "hidden":
 		return nil, rUnexported, ""
 	}
